@@ -23,7 +23,17 @@ struct CaseIn {
     /// 0: published, 1: inserted but never refreshed (read() yields None), 2: published, then the write handle dropped
     table_mode: u8,
     table: Vec<(u32, u64)>,
+    /// table changes made from inside the outflow closure: (after this many delivered messages, new table;
+    /// None = the write handle is dropped, the map is destroyed).  Deterministic stand-in for the concurrent writer.
+    changes: Vec<(usize, Option<Vec<(u32, u64)>>)>,
     msgs: Vec<RawMsg>,
+}
+
+fn new_lc_item(start: u64) -> Lifecycle {
+    let mut dummy = dltgen::plain_msg(0, 0, 0, 0);
+    let mut lc = Lifecycle::new(&mut dummy);
+    lc.start_time = start;
+    lc
 }
 
 fn build_msg(pos: usize, r: &RawMsg) -> DltMessage {
@@ -53,20 +63,18 @@ fn run_impl(c: &CaseIn) -> Result<(Vec<usize>, bool), String> {
         let inputs: Vec<DltMessage> = c.msgs.iter().enumerate().map(|(p, r)| build_msg(p, r)).collect();
         let (lcs_r, mut lcs_w) = evmap::new::<LifecycleId, LifecycleItem>();
         for (id, start) in &c.table {
-            let mut dummy = dltgen::plain_msg(0, 0, 0, 0);
-            let mut lc = Lifecycle::new(&mut dummy);
-            lc.start_time = *start;
-            lcs_w.insert(*id, lc);
+            lcs_w.insert(*id, new_lc_item(*start));
         }
         if c.table_mode != 1 {
             lcs_w.refresh();
         }
-        let keep_writer = if c.table_mode == 2 {
+        let writer = std::cell::RefCell::new(if c.table_mode == 2 {
             drop(lcs_w);
             None
         } else {
             Some(lcs_w)
-        };
+        });
+        let content = std::cell::RefCell::new(c.table.iter().map(|x| x.0).collect::<Vec<u32>>());
         let (tx, rx) = channel();
         for m in inputs.iter() {
             tx.send(m.clone()).unwrap();
@@ -77,6 +85,32 @@ fn run_impl(c: &CaseIn) -> Result<(Vec<usize>, bool), String> {
             rx,
             &|m| {
                 out.borrow_mut().push(m);
+                let n = out.borrow().len();
+                for (at, newt) in c.changes.iter() {
+                    if *at == n {
+                        let mut wopt = writer.borrow_mut();
+                        match newt {
+                            None => {
+                                *wopt = None; // drops the write handle: read() yields None from now on
+                            }
+                            Some(t) => {
+                                if let Some(w) = wopt.as_mut() {
+                                    let mut cont = content.borrow_mut();
+                                    for id in cont.iter() {
+                                        if !t.iter().any(|x| x.0 == *id) {
+                                            w.empty(*id);
+                                        }
+                                    }
+                                    for (id, start) in t.iter() {
+                                        w.update(*id, new_lc_item(*start));
+                                    }
+                                    w.refresh();
+                                    *cont = t.iter().map(|x| x.0).collect();
+                                }
+                            }
+                        }
+                    }
+                }
                 Ok(())
             },
             &lcs_r,
@@ -84,7 +118,7 @@ fn run_impl(c: &CaseIn) -> Result<(Vec<usize>, bool), String> {
             c.mind,
         );
         assert!(res.is_ok(), "buffer_sort_messages returned Err although outflow never fails");
-        drop(keep_writer);
+        drop(writer);
         let out = out.into_inner();
         let mut intact = true;
         let mut tags = vec![];
@@ -111,6 +145,13 @@ fn calc_of(c: &CaseIn, r: &RawMsg) -> Option<u64> {
         return Some(rt);
     }
     let start = if c.table_mode == 0 { c.table.iter().find(|(id, _)| *id == lc).map(|x| x.1).unwrap_or(0) } else { 0 };
+    // with a changing table every version must fit (the ordering clause is only evaluated for a fixed table)
+    for (_, t) in c.changes.iter() {
+        if let Some(t) = t {
+            let st = t.iter().find(|(id, _)| *id == lc).map(|x| x.1).unwrap_or(0);
+            st.checked_add(ts as u64 * 100)?;
+        }
+    }
     start.checked_add(ts as u64 * 100).map(|t| t.min(rt))
 }
 
@@ -122,7 +163,7 @@ fn in_overflow_domain(c: &CaseIn) -> bool {
 }
 
 fn hypothesis_holds(c: &CaseIn) -> bool {
-    c.msgs.windows(2).all(|p| p[0].1 <= p[1].1 && p[0].0 < p[1].0)
+    c.changes.is_empty() && c.msgs.windows(2).all(|p| p[0].1 <= p[1].1 && p[0].0 < p[1].0)
         && c.msgs.iter().all(|m| match calc_of(c, m) {
             Some(calc) => m.1 - calc <= c.mind,
             None => false,
@@ -347,12 +388,45 @@ fn gen_case(rng: &mut Rng, big: bool) -> CaseIn {
         let k = rng.below(msgs.len() as u64) as usize;
         msgs[k].1 = u64::MAX - rng.below(2_000_000);
     }
-    CaseIn { w, mind, table_mode, table, msgs }
+    // table changes while sorting (never for a destroyed map)
+    let mut changes: Vec<(usize, Option<Vec<(u32, u64)>>)> = vec![];
+    if table_mode != 2 && !msgs.is_empty() && rng.chance(1, 4) {
+        let k = 1 + rng.below(3);
+        let mut ats: Vec<usize> = (0..k).map(|_| 1 + rng.below(msgs.len() as u64) as usize).collect();
+        ats.sort();
+        ats.dedup();
+        let mut cur = table.clone();
+        for (j, at) in ats.iter().enumerate() {
+            if j + 1 == ats.len() && rng.chance(1, 8) {
+                changes.push((*at, None));
+                break;
+            }
+            for x in cur.iter_mut() {
+                match rng.below(4) {
+                    0 => x.1 = x.1.saturating_sub(rng.below(2_000_000)),
+                    1 => x.1 = x.1.saturating_add(rng.below(2_000_000)),
+                    _ => {}
+                }
+            }
+            if !cur.is_empty() && rng.chance(1, 4) {
+                let i = rng.below(cur.len() as u64) as usize;
+                cur.remove(i);
+            }
+            if rng.chance(1, 3) {
+                let id = rng.below(next_id as u64 + 1) as u32;
+                if !cur.iter().any(|x| x.0 == id) {
+                    cur.push((id, base.saturating_sub(rng.below(5_000_000))));
+                }
+            }
+            changes.push((*at, Some(cur.clone())));
+        }
+    }
+    CaseIn { w, mind, table_mode, table, changes, msgs }
 }
 
 // ------------------------------------------------------------------------------------------ recording
 fn case_json(c: &CaseIn) -> Value {
-    json!({"w": c.w, "mind": c.mind, "table_mode": c.table_mode, "table": c.table,
+    json!({"w": c.w, "mind": c.mind, "table_mode": c.table_mode, "table": c.table, "changes": c.changes,
            "msgs": c.msgs.iter().map(|m| json!([m.0, m.1, m.2, m.3, m.4, m.5])).collect::<Vec<_>>()})
 }
 fn case_from_json(v: &Value) -> CaseIn {
@@ -361,6 +435,10 @@ fn case_from_json(v: &Value) -> CaseIn {
         mind: v["mind"].as_u64().unwrap(),
         table_mode: v["table_mode"].as_u64().unwrap() as u8,
         table: v["table"].as_array().unwrap().iter().map(|x| (x[0].as_u64().unwrap() as u32, x[1].as_u64().unwrap())).collect(),
+        changes: match v.get("changes") {
+            Some(ch) if ch.is_array() => serde_json::from_value(ch.clone()).unwrap(),
+            _ => vec![],
+        },
         msgs: v["msgs"]
             .as_array()
             .unwrap()
@@ -379,17 +457,24 @@ fn record(sink: &mut Sink, c: CaseIn, origin: &str) {
         Ok((tags, intact)) => O::T(vec![O::L(0), O::T(tags.iter().map(|t| O::n(*t as u64)).collect()), O::b(*intact)]),
         Err(_) => O::T(vec![O::L(1)]),
     };
-    let tbl = if c.table_mode == 0 {
-        format!("(Some {})", clist(&c.table.iter().map(|(i, s)| format!("({}, {})", i, s)).collect::<Vec<_>>()))
-    } else {
-        "None".to_string()
-    };
+    let ctable = |t: &Vec<(u32, u64)>| format!("(Some {})", clist(&t.iter().map(|(i, s)| format!("({}, {})", i, s)).collect::<Vec<_>>()));
+    let mut versions = vec![format!("(0, {})", if c.table_mode == 0 { ctable(&c.table) } else { "None".to_string() })];
+    for (at, t) in c.changes.iter() {
+        versions.push(format!("({}, {})", at, match t {
+            Some(t) => ctable(t),
+            None => "None".to_string(),
+        }));
+    }
+    let tbl = clist(&versions);
     let msgs = clist(&c.msgs.iter().map(|m| format!("({}, {}, {}, {}, {}, {})", m.0, m.1, m.2, m.3, m.4, m.5)).collect::<Vec<_>>());
     let input_coq = format!("({}, {}, {}, {})", c.w, c.mind, tbl, msgs);
     let hyp = hypothesis_holds(&c);
     let mut tags = vec![origin.to_string(), format!("w{}", if c.w > 6 { 255 } else { c.w }), format!("table_mode{}", c.table_mode)];
     if hyp {
         tags.push("bound_hypothesis_holds".into());
+    }
+    if !c.changes.is_empty() {
+        tags.push("table_changes_while_sorting".into());
     }
     let mut ecus: Vec<u8> = c.msgs.iter().map(|m| m.2).collect();
     ecus.sort();
@@ -449,11 +534,11 @@ fn record(sink: &mut Sink, c: CaseIn, origin: &str) {
 }
 
 fn corpus() -> Vec<CaseIn> {
-    let plain = |w: u8, mind: u64, table: Vec<(u32, u64)>, msgs: Vec<RawMsg>| CaseIn { w, mind, table_mode: 0, table, msgs };
+    let plain = |w: u8, mind: u64, table: Vec<(u32, u64)>, msgs: Vec<RawMsg>| CaseIn { w, mind, table_mode: 0, table, changes: vec![], msgs };
     let r: u64 = 1_640_995_200_000_000;
     vec![
         // the three repo tests (basic2, basic3 shapes)
-        CaseIn { w: 3, mind: 2_000_000, table_mode: 1, table: vec![], msgs: vec![(0, r + 1_000_000, 1, 10_000, 0, 0), (1, r + 1_200_000, 1, 11_000, 0, 0)] },
+        CaseIn { w: 3, mind: 2_000_000, table_mode: 1, table: vec![], changes: vec![], msgs: vec![(0, r + 1_000_000, 1, 10_000, 0, 0), (1, r + 1_200_000, 1, 11_000, 0, 0)] },
         plain(3, 2_000_000, vec![(1, r - 110_000)], vec![(0, r, 1, 1_100, 0, 1), (1, r + 1_000, 1, 1_000, 0, 1)]),
         // empty stream, single message, window size 0 (panics on the first message), window size 0 with no message
         plain(3, 0, vec![], vec![]),
@@ -493,7 +578,26 @@ fn corpus() -> Vec<CaseIn> {
         // minimum delay close to u64::MAX: min_delay + 1000 s overflows
         plain(3, u64::MAX - 5, vec![], vec![(0, 1_000_000, 1, 1, 0, 1)]),
         // destroyed map
-        CaseIn { w: 3, mind: 0, table_mode: 2, table: vec![(1, 500)], msgs: vec![(0, 1_000, 1, 3, 0, 1), (1, 1_001, 1, 2, 0, 1), (2, 3_000_000, 1, 1, 0, 1)] },
+        CaseIn { w: 3, mind: 0, table_mode: 2, table: vec![(1, 500)], changes: vec![], msgs: vec![(0, 1_000, 1, 3, 0, 1), (1, 1_001, 1, 2, 0, 1), (2, 3_000_000, 1, 1, 0, 1)] },
+        // first-sight cache: lifecycle 1 is looked up before the table changes (start 0 stays cached although the table
+        // moves it to 900 ms), lifecycle 2 is first seen after the change (start 500 ms); window 1, no minimum delay
+        CaseIn {
+            w: 1,
+            mind: 0,
+            table_mode: 0,
+            table: vec![(1, 0), (2, 0)],
+            changes: vec![(1, Some(vec![(1, 900_000), (2, 500_000)]))],
+            msgs: vec![(0, 1_000_000, 1, 10_000, 0, 1), (1, 2_500_000, 1, 25_000, 0, 1), (2, 4_000_000, 1, 30_000, 0, 1), (3, 4_000_001, 2, 30_000, 0, 2), (4, 9_000_000, 1, 90_000, 0, 1)],
+        },
+        // unpublished map that gets published by a refresh while sorting; later the writer goes away
+        CaseIn {
+            w: 2,
+            mind: 1_000,
+            table_mode: 1,
+            table: vec![(1, 100)],
+            changes: vec![(2, Some(vec![(1, 100), (2, 200)])), (3, None)],
+            msgs: vec![(0, 1_000_000, 1, 100, 0, 1), (1, 2_500_000, 2, 200, 0, 1), (2, 4_000_000, 1, 300, 0, 2), (3, 5_600_000, 2, 400, 0, 3), (4, 7_000_000, 1, 500, 0, 2), (5, 9_000_000, 2, 600, 0, 3)],
+        },
     ]
 }
 
